@@ -553,7 +553,16 @@ fn auth_dec(b: &[u8]) -> String {
                 icv[n - 1] ^= 1;
                 let _ = d.set_raw_icv(&icv);
             }
-            format!("ok({},rest={}){}", auth_fields(&h), win(b, rest), if eq_only_bad(&h, Some(d)) { "!accessor-mismatch" } else { "" })
+            // a header that held a longer ICV before is the same header (the buffer behind the ICV is no part
+            // of the value), encodes alike and is equal to what its bytes decode to
+            let mut st = h.clone();
+            let longer = vec![0xEEu8; (h.raw_icv().len() + 8).min(1016)];
+            let stale_bad = st.set_raw_icv(&longer).is_err()
+                || st.set_raw_icv(h.raw_icv()).is_err()
+                || st != h
+                || st.to_bytes() != h.to_bytes()
+                || IpAuthHeader::from_slice(&st.to_bytes()).map(|x| x.0 != st).unwrap_or(true);
+            format!("ok({},rest={}){}", auth_fields(&h), win(b, rest), if eq_only_bad(&h, Some(d)) || stale_bad { "!accessor-mismatch" } else { "" })
         }
     }
 }
@@ -659,7 +668,14 @@ fn rawext_dec(b: &[u8]) -> String {
             let n = pl.len();
             pl[n - 1] ^= 1;
             let _ = d.set_payload(&pl);
-            format!("ok({},rest={}){}", rawext_fields(&h), win(b, rest), if eq_only_bad(&h, Some(d)) { "!accessor-mismatch" } else { "" })
+            let mut st = h.clone();
+            let longer = vec![0xEEu8; (h.payload().len() + 8).min(6 + 255 * 8)];
+            let stale_bad = st.set_payload(&longer).is_err()
+                || st.set_payload(h.payload()).is_err()
+                || st != h
+                || st.to_bytes() != h.to_bytes()
+                || Ipv6RawExtHeader::from_slice(&st.to_bytes()).map(|x| x.0 != st).unwrap_or(true);
+            format!("ok({},rest={}){}", rawext_fields(&h), win(b, rest), if eq_only_bad(&h, Some(d)) || stale_bad { "!accessor-mismatch" } else { "" })
         }
     }
 }
